@@ -106,6 +106,24 @@ Section Handlers.
        [reflexivity|exfalso; eapply HB'; eauto]).
   Qed.
 
+  (* jwt-bearer: the authenticated client, or - for a request naming nobody, where the embedder allows
+     it - the anonymous client, which must then be refused as well *)
+  Lemma jwt_bearer_grant_binding r :
+    must_bind (t_bind r) (cr_id (t_cred r)) ->
+    (cr_id (t_cred r) = 0 -> cf_jwt_bearer_authn_required cfg = false ->
+     forall o, validate_binding cfg (anonymous_client cfg) (t_bind r) o <> None) ->
+    rets QC refused (jwt_bearer_grant w n now r).
+  Proof.
+    intros HB HA. unfold jwt_bearer_grant. fold cfg.
+    destruct (negb (has_grant GJwtBearer (cf_grants cfg))); [reflexivity|].
+    eapply rets_bind'; [apply jwt_bearer_client_rets; auto|]. intros [c|] Hf; [|reflexivity].
+    destruct (negb (has_grant GJwtBearer (c_grants c))); [reflexivity|].
+    destruct (validate_binding cfg c (t_bind r) no_opts) eqn:E; [reflexivity|].
+    exfalso. destruct Hf as [[Hid Hq]|[Hc [Hz Hr]]].
+    - eapply HB; eauto.
+    - subst c. eapply HA; eauto.
+  Qed.
+
   Lemma ciba_grant_binding r : must_bind (t_bind r) (cr_id (t_cred r)) -> rets QC refused (ciba_grant w n now r).
   Proof.
     intros HB. unfold ciba_grant. fold cfg.
@@ -309,9 +327,10 @@ Section Steps.
     g <> GRefreshToken ->
     (forall c, registered w st c -> c_id c = cr_id (t_cred r) -> f c) ->
     (forall c, f c -> forall o, validate_binding cfg c (t_bind r) o <> None) ->
+    (g = GJwtBearer -> cr_id (t_cred r) = 0 -> cf_jwt_bearer_authn_required cfg = false -> f (anonymous_client cfg)) ->
     xrefused (snd (step_g w st n (OpToken g r))).
   Proof.
-    intros Hg Hreg Hf. apply step_rets with (QC := for_id (cr_id (t_cred r)) f); [|exact I|].
+    intros Hg Hreg Hf Ha. apply step_rets with (QC := for_id (cr_id (t_cred r)) f); [|exact I|].
     - intros c Hc Hid. auto.
     - assert (forall cl, In cl (w_static w) -> for_id (cr_id (t_cred r)) f cl) as Hs
         by (intros cl Hcl Hid; apply Hreg; auto; left; exact Hcl).
@@ -320,6 +339,7 @@ Section Steps.
       destruct g; cbn; try reflexivity; try congruence; apply lift_refused.
       + apply cc_grant_binding; auto.
       + apply code_grant_binding; auto.
+      + apply jwt_bearer_grant_binding; auto.
       + apply ciba_grant_binding; auto.
   Qed.
 End Steps.
@@ -503,10 +523,12 @@ Section Switches.
 
   Lemma client_dpop_required_enforced g r : cf_dpop_enabled cfg = true -> g <> GRefreshToken ->
     (forall c, registered w st c -> c_id c = cr_id (t_cred r) -> c_dpop_required c = true) ->
+    (g = GJwtBearer -> cr_id (t_cred r) <> 0 \/ cf_jwt_bearer_authn_required cfg = true) ->
     b_dpop (t_bind r) = None -> xrefused (snd (step_g w st n (OpToken g r))).
   Proof.
-    intros He Hg Hc Hb. eapply token_blocked with (f := fun c => c_dpop_required c = true); auto. intros c Hr o.
-    apply vb_dpop_required; auto. rewrite Hr. apply orb_true_r.
+    intros He Hg Hc Hn Hb. eapply token_blocked with (f := fun c => c_dpop_required c = true); auto.
+    - intros c Hr o. apply vb_dpop_required; auto. rewrite Hr. apply orb_true_r.
+    - intros G Z R. destruct (Hn G) as [X|X]; [contradiction|]. cbn in R. rewrite X in R. discriminate.
   Qed.
 
   Lemma tls_binding_required_enforced g r : In WithTLSCertTokenBindingRequired opts -> g <> GRefreshToken ->
@@ -519,10 +541,12 @@ Section Switches.
 
   Lemma client_tls_required_enforced g r : cf_tls_binding_enabled cfg = true -> g <> GRefreshToken ->
     (forall c, registered w st c -> c_id c = cr_id (t_cred r) -> c_tls_required c = true) ->
+    (g = GJwtBearer -> cr_id (t_cred r) <> 0 \/ cf_jwt_bearer_authn_required cfg = true) ->
     b_cert (t_bind r) = 0 -> xrefused (snd (step_g w st n (OpToken g r))).
   Proof.
-    intros He Hg Hc Hb. eapply token_blocked with (f := fun c => c_tls_required c = true); auto. intros c Hr o.
-    apply vb_tls_required; auto. rewrite Hr. apply orb_true_r.
+    intros He Hg Hc Hn Hb. eapply token_blocked with (f := fun c => c_tls_required c = true); auto.
+    - intros c Hr o. apply vb_tls_required; auto. rewrite Hr. apply orb_true_r.
+    - intros G Z R. destruct (Hn G) as [X|X]; [contradiction|]. cbn in R. rewrite X in R. discriminate.
   Qed.
 
   Lemma binding_required_enforced g r : In WithTokenBindingRequired opts -> g <> GRefreshToken ->
